@@ -55,7 +55,6 @@ inductive CfgKind where
 inductive PyExc where
   | config (k : CfgKind) (p : Path)   -- `QMI_ConfigurationException`, message names `".".join(path)`
   | typeError
-  | overflowError
   | valueError
   deriving DecidableEq, Repr
 
@@ -201,14 +200,6 @@ end
 
 def mismatch {α : Type} (p : Path) : R α := .error (.config .mismatch p)
 
-/-- `len(val)`: `none` = `TypeError: object of type … has no len()` -/
-def pyLen : PV → Option Nat
-  | .str s => some s.length
-  | .list xs => some xs.length
-  | .tuple xs => some xs.length
-  | .dict kvs => some kvs.length
-  | _ => none
-
 /-- `float(n)` raises `OverflowError` iff `|n| ≥ 2^1024 − 2^970` (round-half-even to binary64) -/
 def floatOverflow (n : Int) : Bool := decide (2 ^ 1024 - 2 ^ 970 ≤ n.natAbs)
 
@@ -281,8 +272,9 @@ def parseValue : Ty → PV → Path → R PV
     match v with
     | .flt l => .ok (.flt l)
     | .fltOfInt n => .ok (.fltOfInt n)
-    -- `field_type is float and isinstance(val, int)`: `float(val)`
-    | .int n => if floatOverflow n then .error .overflowError else .ok (.fltOfInt n)
+    -- `field_type is float and isinstance(val, int)`: `try: return float(val)`; on `OverflowError` fall
+    -- through to the type-mismatch error at the end
+    | .int n => if floatOverflow n then mismatch p else .ok (.fltOfInt n)
     | .bool b => .ok (.fltOfInt (if b then 1 else 0))
     | _ => mismatch p
   | .str, v, p =>
@@ -304,17 +296,12 @@ def parseValue : Ty → PV → Path → R PV
     | .list xs => okMap .tuple (mapIdx (fun i x => parseValue t x (p ++ [.idx i])) 0 xs)
     | .tuple xs => okMap .tuple (mapIdx (fun i x => parseValue t x (p ++ [.idx i])) 0 xs)
     | _ => mismatch p
-  -- `Tuple[T1, …, Tn]`: `elif len(val) == len(field_type.__args__)` comes *before* the isinstance test
+  -- `Tuple[T1, …, Tn]`: `isinstance(val, (list, tuple)) and len(val) == len(field_type.__args__)`
   | .tupleFix ts, v, p =>
-    match pyLen v with
-    | .none => .error .typeError
-    | some n =>
-      if n = ts.length then
-        match v with
-        | .list xs => okMap .tuple (parseTuple ts xs 0 p)
-        | .tuple xs => okMap .tuple (parseTuple ts xs 0 p)
-        | _ => mismatch p
-      else mismatch p
+    match v with
+    | .list xs => if xs.length = ts.length then okMap .tuple (parseTuple ts xs 0 p) else mismatch p
+    | .tuple xs => if xs.length = ts.length then okMap .tuple (parseTuple ts xs 0 p) else mismatch p
+    | _ => mismatch p
   -- `Dict[str, T]`
   | .dict t, v, p =>
     match v with
